@@ -258,7 +258,9 @@ def _cli_case(case):
         seams.write_file(path, bytes.fromhex(h))
         for opt in (False, True):
             # the options that change what -f does with a decoded log (or with one it cannot decode)
-            extra = [[], ['-x'], ['-P'], [], ['-x', '-P'], ['-H', '-N', '-s'], ['-x']][(n + 2 * opt + len(h)) % 7]
+            extra = [[], ['-x'], ['-P'], [], ['-x', '-P'], ['-H', '-N', '-s'], ['-x'], ['-c'], ['-c', '-x']][(n + 2 * opt + len(h)) % 9]
+            if '-c' in extra:
+                seams.write_file(path, bytes.fromhex(h))        # (an earlier run with --clean may have removed it)
             cmd = [PY] + (['-O'] if opt else []) + [script, '-E', '-f', path] + extra
             rec = dict(kind='cli', shape_ok=True, prefix=prefix, opt=opt, extra=extra,
                        input=h if len(h) <= 400 else h[:400] + '...')
@@ -285,7 +287,8 @@ def _cli_case(case):
             except subprocess.TimeoutExpired:
                 rec.update(exit=998, traceback=False, stderr_empty=True, stdout='other')
             recs.append(rec)
-        os.remove(path)
+        if os.path.exists(path):
+            os.remove(path)
     return recs
 
 
